@@ -106,21 +106,23 @@ def flat(x):
     return [x]
 
 
-def build_pair(make_multi, make_ref, data, what):
+def build_pair(make_multi, make_ref, data, what, out_rate='ar'):
     """two builds; returns (multi def, ref def, multi result shape ok)"""
     m = M()
     iou, sdf, ugn = m['iou'], m['sdf'], m['ugn']
     res = {}
 
+    out = iou.Out.ar if out_rate == 'ar' else iou.Out.kr
+
     def g_multi():
         r = make_multi()
         res['multi'] = r
-        iou.Out.ar(0, flat(r))
+        out(0, flat(r))
 
     def g_ref():
         r = make_ref()
         res['ref'] = r
-        iou.Out.ar(0, flat(r))
+        out(0, flat(r))
     outs = []
     for g in (g_multi, g_ref):
         try:
@@ -289,14 +291,20 @@ def fam_method(ctx):
     args = [mkval(s, 0.1 * (i + 1)) for i, s in enumerate(shapes)]
     what = f'ChannelList[{n}].{name}{tuple(shapes)}'
 
+    mixed = ctx.choose('mixed_rates', 2)       # channels of different rates: every channel keeps ITS rate
+    rec['mixed'] = mixed
+
+    def chans():
+        return [(nse.LFNoise0.kr if (mixed and i % 2) else nse.LFNoise0.ar)(300.0 + i) for i in range(n)]
+
     def multi():
-        cl = ugn.ChannelList([nse.LFNoise0.ar(300.0 + i) for i in range(n)])
+        cl = ugn.ChannelList(chans())
         return getattr(cl, name)(*args)
 
     def ref():
-        cl = [nse.LFNoise0.ar(300.0 + i) for i in range(n)]
+        cl = chans()
         return ref_expand(lambda u, *a: getattr(u, name)(*a), [cl] + args)
-    build_pair(multi, ref, data, what)
+    build_pair(multi, ref, data, what, out_rate='kr' if mixed else 'ar')
     ctx.obligations += 1
     ctx.discharged += 1
     ctx.note('method')
@@ -382,6 +390,58 @@ def fam_out(ctx):
     return {'call': f'Out.ar shape {sh}'}
 
 
+OUT_CLASSES = [('Out', 1), ('ReplaceOut', 1), ('OffsetOut', 1), ('XOut', 2)]
+
+
+def fam_outs(ctx):
+    """every output class at audio and control rate: a flat channel array with a scalar bus makes ONE output unit that
+    carries all channels in order (the array is the unit's channel list, not one more argument to expand)"""
+    m = M()
+    nse, iou = m['nse'], m['iou']
+    k = ctx.choose('cls', len(OUT_CLASSES))
+    name, fixed = OUT_CLASSES[k]
+    rate = ('ar', 'kr')[ctx.choose('rate', 2)]
+    if name == 'OffsetOut' and rate == 'kr':
+        raise PathAbort('OffsetOut is audio rate only')
+    n = 1 + ctx.choose('n', 3)
+    rec = {'mode': 'nrt', 'fam': 'outs', 'sel': {'cls': k, 'rate': 0 if rate == 'ar' else 1, 'n': n - 1}}
+
+    def data(sub):
+        return {'key': f'c03:outs:{sub}', 'replay': dict(rec, sub=sub)}
+
+    def g():
+        sigs = [getattr(nse.LFNoise0, rate)(401 + i) for i in range(n)]
+        cls = getattr(iou, name)
+        if name == 'XOut':
+            getattr(cls, rate)(3, 0.5, sigs)
+        else:
+            getattr(cls, rate)(3, sigs)
+    try:
+        sd, b = sdsym.build_bytes('os', g)
+    except (PathAbort, Inconclusive, Violation):
+        raise
+    except Exception as e:
+        raise Violation(f'{name}.{rate} of {n} channels does not compile: {type(e).__name__}: {e}', None, data('compile'))
+    d = scgf.parse(b)[0]
+    outs = [u for u in d['ugens'] if u['cls'] == name]
+    if len(outs) != 1:
+        raise Violation(f'{name}.{rate}(bus, [{n} channels]) compiles to {len(outs)} {name} units, expected one unit '
+                        f'with {n} channel inputs', None, data('unit-count'))
+    u = outs[0]
+    if len(u['ins']) != fixed + n:
+        raise Violation(f'{name}.{rate}: the unit has {len(u["ins"]) - fixed} channel inputs, the array has {n}', None,
+                        data('channels'))
+    for i in range(n):
+        su, so = u['ins'][fixed + i]
+        ok = su >= 0 and d['ugens'][su]['cls'] == 'LFNoise0' and d['consts'][d['ugens'][su]['ins'][0][1]] == 401.0 + i
+        if not ok:
+            raise Violation(f'{name}.{rate}: channel {i} is not wired to generator {i}', None, data('order'))
+    ctx.obligations += 1
+    ctx.discharged += 1
+    ctx.note('outs')
+    return {'call': f'{name}.{rate} x{n}'}
+
+
 def fam_tuple(ctx):
     """tuples are opaque: no expansion, one unit"""
     m = M()
@@ -437,6 +497,8 @@ def job(j):
         h = fam_method
     elif fam == 'out':
         h = fam_out
+    elif fam == 'outs':
+        h = fam_outs
     else:
         h = fam_tuple
     st = explore(h, max_paths=20000, timeout_ms=20000, stop_on_violation=False)
@@ -496,6 +558,8 @@ def replay(rec):
             fam_method(ctx)
         elif fam == 'out':
             fam_out(ctx)
+        elif fam == 'outs':
+            fam_outs(_CCtx(dict(rec.get('sel', {}))))
         else:
             fam_tuple(ctx)
     except Violation as v:
@@ -514,10 +578,10 @@ def main(tier, seed):
     allc = classes()
     cl = [c for c in QUICK_CLASSES if c in allc] if tier == 'quick' else allc
     jobs = [dict(fam='class', cls=c, npos=2 if tier == 'quick' else 3) for c in cl]
-    jobs += [dict(fam='op'), dict(fam='method'), dict(fam='out'), dict(fam='tuple')]
+    jobs += [dict(fam='op'), dict(fam='method'), dict(fam='out'), dict(fam='outs'), dict(fam='tuple')]
     for r in run_jobs('vf.props.c03', 'job', jobs, 'nrt'):
         chk.add('expansion', r)
-    chk.require_notes('expansion', ['class', 'op', 'method', 'out', 'tuple'])
+    chk.require_notes('expansion', ['class', 'op', 'method', 'out', 'outs', 'tuple'])
     chk.programs = sum(a.get('paths', 0) for a in chk.parts.values())
     chk.bounds = {'classes': cl if tier == 'quick' else f'{len(allc)} classes found by introspection',
                   'argument_positions_with_lists': 2 if tier == 'quick' else 3, 'shapes': SHAPES,
